@@ -13,6 +13,18 @@
 #include <sys/resource.h>
 #include <sys/stat.h>
 #include <sstream>
+#include <malloc.h>
+#if defined(__has_feature)
+# if __has_feature(address_sanitizer)
+#  define SIM_ASAN_CORE 1
+# endif
+#endif
+#if !defined(SIM_ASAN_CORE) && defined(__SANITIZE_ADDRESS__)
+# define SIM_ASAN_CORE 1
+#endif
+#if !defined(SIM_ASAN_CORE)
+# define SIM_ASAN_CORE 0
+#endif
 #include <array>
 
 extern "C" {
@@ -237,7 +249,13 @@ bool Plan::parse(const std::string &txt, Plan &p, std::string &err)
 	}
 	return true;
 }
-uint64_t Plan::hash() const { return hash_str(1, text()); }
+uint64_t Plan::hash() const
+{
+	/* the class line is an annotation of replay files, not part of the plan */
+	Plan q = *this;
+	q.cls.clear();
+	return hash_str(1, q.text());
+}
 int64_t Plan::ipar(const char *k, int64_t d) const
 {
 	auto it = par.find(k);
@@ -321,6 +339,8 @@ static std::string slurp_fd(int fd, size_t max)
 
 uint64_t RunResult::hash() const
 {
+	if (hang)	/* where exactly the budget struck is not part of the behaviour */
+		return hash_mix(0x4a46, (uint64_t)cur_op);
 	uint64_t h = hash_str(7, out);
 	h = hash_mix(h, (uint64_t)(int64_t)exit_code);
 	h = hash_mix(h, (uint64_t)signal);
@@ -357,7 +377,32 @@ static int make_memfd(const char *name)
 	return fd;
 }
 
+/* uninitialised locals and fresh heap blocks see the same bytes in a worker's incarnation and in a
+ * fresh-process replay, whatever ran before the fork */
+static void __attribute__((noinline)) scrub_stack(void)
+{
+	volatile char pad[192 * 1024];
+	for (size_t i = 0; i < sizeof(pad); i++)
+		pad[i] = (char)0xa5;
+	__asm__ volatile("" ::: "memory");
+}
+
+static RunResult run_plan_once(const Plan &p, const Limits &lim, std::function<int()> body);
+
 RunResult run_plan(const Plan &p, const Limits &lim, std::function<int()> body)
+{
+	RunResult r = run_plan_once(p, lim, body);
+	if (r.hang && lim.cpu_s < 60.0) {
+		/* CPU time, not wall time -- but a slow case must not pass for a hang: confirm with five times the budget */
+		Limits l2 = lim;
+		l2.cpu_s = lim.cpu_s * 5;
+		RunResult r2 = run_plan_once(p, l2, body);
+		return r2;
+	}
+	return r;
+}
+
+static RunResult run_plan_once(const Plan &p, const Limits &lim, std::function<int()> body)
 {
 	RunResult r;
 	Shared *sh = shared_map();
@@ -411,6 +456,10 @@ RunResult run_plan(const Plan &p, const Limits &lim, std::function<int()> body)
 		setrlimit(RLIMIT_CORE, &rl);
 		set_shared(sh);
 		install_plan(p, lim);
+#if !SIM_ASAN_CORE
+		mallopt(M_PERTURB, 0xa5);
+#endif
+		scrub_stack();
 		int rc = body ? body() : call_tool_main(p.argv);
 		sh->done = 1;
 		exit(rc);	/* flushes stdio like a return from main would */
